@@ -56,9 +56,26 @@ def scan_forbidden():
         bad.append('coq/_CoqProject: forbidden flag')
     return bad
 
+def write_coqproject():
+    """_CoqProject lists every .v file under the development's directories."""
+    lines = ['-Q . RB',
+             '-arg -w -arg -notation-overridden,-deprecated-hint-without-locality,-deprecated-instance-without-locality']
+    for d in ('Base', 'Model', 'Spec', 'Proofs', 'Props', 'Extract'):
+        dd = os.path.join(COQ, d)
+        if os.path.isdir(dd):
+            for root, _, files in sorted(os.walk(dd)):
+                for fn in sorted(files):
+                    if fn.endswith('.v'):
+                        lines.append(os.path.relpath(os.path.join(root, fn), COQ))
+    new = '\n'.join(lines) + '\n'
+    p = os.path.join(COQ, '_CoqProject')
+    if not os.path.exists(p) or open(p).read() != new:
+        open(p, 'w').write(new)
+
 def make_targets(targets, timeout=1500, clean=False):
     """Full .vo build of the given targets (and what they depend on)."""
     with flock('coqmake'):
+        write_coqproject()
         if clean:
             sh('make -f Makefile.coq clean >/dev/null 2>&1; rm -f Makefile.coq Makefile.coq.conf .Makefile.coq.d', cwd=COQ)
         rc, out, dt = sh('coq_makefile -f _CoqProject -o Makefile.coq', cwd=COQ, timeout=120)
